@@ -261,6 +261,9 @@ def cases(draw):
                 z = draw(st.integers(1, 6))
                 x = draw(st.integers(0, 2 ** z - 1))
                 pts.append([float(Fraction(x, 2 ** z) * 360 - 180), draw(st.sampled_from([0.0, 10.5, -33.25, 60.125]))])
+            # events exactly on the date line: lon = 180 belongs to no tile (cells are east-exclusive) and is not counted anywhere
+            for _ in range(draw(st.integers(0, 8))):
+                pts.append([180.0, draw(st.sampled_from([0.0, 10.5, -33.25, 60.125, 5.0]))])
         g = {"kind": "catalog", "points": pts, "threshold": draw(st.sampled_from([1, 2, 3, 5, 10, 50])), "zoom": deep or draw(st.integers(2, 7))}
         sel = draw(st.lists(st.integers(0, 10**6), min_size=10, max_size=40))
     extra = draw(st.lists(st.tuples(st.floats(-180, 180), st.floats(-90, 90)).map(list), max_size=6))
